@@ -12,6 +12,7 @@ package vsched
 
 import (
 	"fmt"
+	"math"
 	"reflect"
 	"runtime"
 	"sort"
@@ -57,6 +58,10 @@ type Thread struct {
 	Cases   []Case
 	HasDef  bool
 	Arrival int64
+	// Pending: the thread has called Lock() on a reader/writer lock that was taken and now queues
+	// for it (new readers wait behind it). A thread parked *before* its Lock() call is not
+	// pending: a reader may still get in first.
+	Pending bool
 	parked  bool
 	done    bool
 	wake    chan int // value: chosen case for selects (-1 none / default)
@@ -182,7 +187,7 @@ func parkF(kind, site string, l LockState, cases []Case, hasDef bool, force bool
 		free := true
 		if l != nil {
 			if kind == KRLock {
-				free = l.CanRLock(arrival + 1)
+				free = l.CanRLock(math.MaxInt64)
 			} else {
 				free = l.CanLock(arrival + 1)
 			}
@@ -195,6 +200,7 @@ func parkF(kind, site string, l LockState, cases []Case, hasDef bool, force bool
 	t := self(site)
 	arrival++
 	t.Kind, t.Site, t.Lock, t.Cases, t.HasDef, t.Arrival = kind, site, l, cases, hasDef, arrival
+	t.Pending = force && (kind == KLock || kind == KRLock)
 	t.parked = true
 	mu.Unlock()
 	return <-t.wake
@@ -364,8 +370,18 @@ func Snapshot() []Parked {
 			p.Enabled = true
 		case KLock:
 			p.Enabled = t.Lock.CanLock(t.Arrival)
+			if q, ok := t.Lock.(interface{ Queues() bool }); ok && q.Queues() && !t.Pending {
+				// calling Lock() on a taken reader/writer lock is a step of its own: the caller
+				// starts to queue, and from then on new readers wait behind it
+				p.Enabled = true
+			}
 		case KRLock:
-			p.Enabled = t.Lock.CanRLock(t.Arrival)
+			// a reader that has not called RLock() yet comes after every queued writer
+			arr := int64(math.MaxInt64)
+			if t.Pending {
+				arr = t.Arrival
+			}
+			p.Enabled = t.Lock.CanRLock(arr)
 		case KSelect:
 			p.Ready = readyClauses(t, ts)
 			p.Enabled = len(p.Ready) > 0
@@ -392,7 +408,7 @@ func Release(t *Thread, choice int) {
 func WaitingWriters(l LockState) []int64 {
 	var out []int64
 	for _, t := range order {
-		if t.parked && t.Kind == KLock && t.Lock == l {
+		if t.parked && t.Kind == KLock && t.Lock == l && t.Pending {
 			out = append(out, t.Arrival)
 		}
 	}
